@@ -131,6 +131,14 @@ def handleC14 : List String → String
         | .error e => "err " ++ showErr e
       | none => "bad-op"
     | _, _, _ => "bad-op"
+  -- resolvepath f asGiven underHome home
+  | ["resolvepath", f, asGiven, underHome, home] =>
+    match fromHex f, fromHex home with
+    | some f, some home =>
+      match resolvePath home f (s2b asGiven) (s2b underHome) with
+      | .ok r => "ok " ++ toHex r
+      | .error e => "err " ++ showErr e
+    | _, _ => "bad-op"
   -- inchan sys|std user pw pass
   | ["inchan", kind, user, pw, pass] =>
     match fromHex user, fromHex pw, fromHex pass with
